@@ -187,6 +187,7 @@ handle_op('cif_container_get_category_loop', 'cif_container_get_category_loop', 
 handle_op('cif_container_get_item_loop', 'cif_container_get_item_loop', lambda L, fx: (fx.b1, U('_L2')), lambda L, h: L.loop_free(h), observe=loop_sig)
 handle_op('cif_container_get_item_loop:scalar', 'cif_container_get_item_loop', lambda L, fx: (fx.b1, U('_s_list')), lambda L, h: L.loop_free(h), observe=loop_sig)
 handle_op('cif_container_get_value:char', 'cif_container_get_value', lambda L, fx: (fx.b1, U('_s_char')), lambda L, h: L.value_free(h), observe=lambda L, h: L.read_value(h))
+handle_op('cif_container_get_value:numb', 'cif_container_get_value', lambda L, fx: (fx.b1, U('_s_numb')), lambda L, h: L.value_free(h), observe=lambda L, h: L.read_value(h))
 handle_op('cif_container_get_value:table', 'cif_container_get_value', lambda L, fx: (fx.b1, U('_S_Table')), lambda L, h: L.value_free(h), observe=lambda L, h: L.read_value(h))
 handle_op('cif_container_get_value:list', 'cif_container_get_value', lambda L, fx: (fx.b1, U('_s_list')), lambda L, h: L.value_free(h), observe=lambda L, h: L.read_value(h))
 handle_op('cif_loop_get_packets', 'cif_loop_get_packets', lambda L, fx: (fx.loop,), lambda L, h: L.it_abort(h))
@@ -1049,11 +1050,90 @@ def run_op(ctx, case_index, name, opfn, retryable, layer):
         ctx.drain_events(kinfo, prefix='fault:%s:%s:' % (layer, name))
 
 
+# ---- calls on the handles a parser hands to its callbacks ----------------------------------------------------------
+# The loop handle given to handle_loop_start during cif_parse is an object of its own kind (it carries its names and
+# category itself and belongs to no stored loop yet).  The queries on it are faulted where they are made: inside the
+# callback, the parse around them running unfaulted.  (cif_loop_set_category there answers CIF_INVALID_HANDLE although
+# it takes effect - DESIGN section 5 item 21 - so it has no unfaulted twin to compare with and is left out.)
+
+PT_DOC = b"#\\#CIF_2.0\ndata_pt\n_a 1\nloop_\n_pt.one _pt.Two _pt.three\n1 2 3\n4 5 6\n_z 2\n"
+PT_CALLS = [
+    ('cif_loop_get_names@parse-time-handle', lambda L, h: L.loop_get_names(h)),
+    ('cif_loop_get_category@parse-time-handle', lambda L, h: L.loop_get_category(h)),
+]
+
+
+def run_parse_time(ctx, case_index, name, call, layer):
+    from .. import parsing
+    L = ctx.L
+
+    def parse(k):
+        """one storing parse; the hook makes the call with allocation k of the layer failing (0: none), then once more
+        unfaulted; returns (parse rc, problems, allocations counted, delivered, faulted result, repeated result, dump)"""
+        seen = {}
+
+        def hook(handle):
+            if seen:
+                return
+            arm(L, layer, k)
+            r1 = call(L, handle)
+            cnt, deliv = disarm(L, layer)
+            r2 = call(L, handle) if r1[0] != CIF_OK else r1
+            seen.update(cnt=cnt, deliv=deliv, first=r1, second=r2)
+        res = parsing.parse(L, PT_DOC, parsing.make_opts(), 'new', 'accept', loop_start_hook=hook)
+        dump = None
+        if res.cif:
+            if res.rc == CIF_OK:
+                dump = D.dump(L, res.cif)
+            if L.destroy(res.cif) != CIF_OK:
+                raise HarnessError('destroy of the parsed CIF')
+        return res.rc, list(res.problems), seen, dump
+
+    rc0, problems0, seen0, dump0 = parse(0)
+    if rc0 != CIF_OK or not seen0 or seen0['first'][0] != CIF_OK or problems0:
+        ctx.inconclusive('%s: the unfaulted scenario does not work: parse %r, call %r, %r' % (name, rc0, seen0.get('first'), problems0[:1]))
+        return
+    n = seen0['cnt']
+    ctx.count('ops')
+    ctx.count('allocation_sites_reached:%s' % layer, n)
+    ctx.add('ops_run', name)
+    for k in range(1, n + 1):
+        kinfo = dict(op=name, layer=layer, k=k, of=n)
+        ctx.begin(case_index, dict(op=name, layer=layer, k=k))
+        scope = LedgerScope(L).__enter__()
+        try:
+            rc, problems, seen, dump = parse(k)
+            ctx.count('injections')
+            if not seen or not seen['deliv']:
+                ctx.count('injections_not_delivered')
+            else:
+                ctx.count('faults_delivered')
+                r1, r2 = seen['first'], seen['second']
+                ctx.add('results_under_fault', '%s' % (r1[0],))
+                if r1[0] != CIF_OK and r1[0] not in FAILS:
+                    ctx.violation('fault:%s:%s:rc:%s' % (layer, name, r1[0]), '%s with allocation %d of %d (%s layer) failing returned %s' % (name, k, n, layer, r1[0]), kinfo)
+                elif r2[0] != CIF_OK or r2[1] != seen0['first'][1]:
+                    ctx.violation('fault:%s:%s:retry:rc:%s' % (layer, name, r2[0]), 'after failing with %s (allocation %d of %d) the repeated %s gave %r, unfaulted %r' % (r1[0], k, n, name, r2, seen0['first']), kinfo)
+                elif rc != CIF_OK or problems or dump != dump0:
+                    ctx.violation('fault:%s:%s:enclosing-parse' % (layer, name), 'the parse around the failed and repeated %s: result %r, %r; content %s' % (name, rc, problems[:1], 'as unfaulted' if dump == dump0 else D.first_difference(dump, dump0)), kinfo)
+                else:
+                    if r1[0] == CIF_OK:
+                        ctx.count('absorbed_faults')
+                    ctx.count('injections_consistent')
+        except D.DumpError as e:
+            ctx.violation('fault:%s:%s:unusable' % (layer, name), '%s with allocation %d of %d failing: the parsed CIF cannot be dumped: %s' % (name, k, n, e), kinfo)
+        finally:
+            arm(L, layer, 0)
+        for suffix, detail in scope.finish():
+            ctx.violation('fault:%s:%s:%s' % (layer, name, suffix), '%s with allocation %d of %d failing: %s' % (name, k, n, detail), kinfo)
+        ctx.drain_events(kinfo, prefix='fault:%s:%s:' % (layer, name))
+
+
 def all_cases():
     # inside an open iterator only the library's own allocations are faulted: an allocation failure inside the storage
     # engine ends the enclosing transaction whatever the library does (recorded finding, DESIGN 7.2), for every call alike
     return [(name, fn, retry, layer) for (name, fn, retry) in OPS for layer in ('lib', 'sqlite')
-            if not (name.endswith(NESTED) and layer == 'sqlite')]
+            if not (name.endswith(NESTED) and layer == 'sqlite')] + [(name, call, 'parse-time', 'lib') for name, call in PT_CALLS]
 
 
 def worker(ctx):
@@ -1063,7 +1143,10 @@ def worker(ctx):
     for i in ctx.cases(len(cases)):
         name, fn, retry, layer = cases[i]
         ctx.begin(i, dict(op=name, layer=layer))
-        run_op(ctx, i, name, fn, retry, layer)
+        if retry == 'parse-time':
+            run_parse_time(ctx, i, name, fn, layer)
+        else:
+            run_op(ctx, i, name, fn, retry, layer)
 
 
 def run(env):
@@ -1080,7 +1163,7 @@ def run(env):
                  'layer failing (every k up to the count of the unfaulted twin; quick: the first 60 and 10 evenly spaced '
                  'later ones); non-trivial = the fault was delivered and result, caller-owned objects, state, retry and '
                  'final state all agreed with the twins',
-            samples=res.samples, operations=len(OPS), functions_covered=len(set(n.split(':')[0] for n, _, _ in OPS)),
+            samples=res.samples, operations=len(OPS) + len(PT_CALLS), functions_covered=len(set(n.split(':')[0] for n, _, _ in OPS)),
             operation_layer_pairs_run=res.count('ops'), faults_delivered=res.count('faults_delivered'),
             injections_not_delivered=res.count('injections_not_delivered'), retries_ok=res.count('retries_ok'),
             faults_absorbed_with_normal_result=res.count('absorbed_faults'),
